@@ -40,7 +40,7 @@ static inline void xv_xpoll_havoc(void)
     xv_g_byte = nondet_uchar(); xv_w = nondet_long(); xv_b = nondet_long();
     xv_g_fd = nondet_int(); xv_g_ev = nondet_int(); xv_g_bfree = nondet_bool(); xv_g_bring = nondet_bool();
     xv_g_i0 = nondet_int(); xv_g_i1 = nondet_int(); xv_g_i2 = nondet_int();
-    xv_afd_refs = nondet_int(); xv_bw = nondet_long(); xv_g_bbyte = nondet_uchar(); xv_g_i3 = nondet_int(); xv_g_refs = nondet_int();
+    xv_afd_refs = nondet_int(); xv_bw = nondet_long(); xv_g_bbyte = nondet_uchar(); xv_g_i3 = nondet_int(); xv_g_refs = nondet_int(); xv_g_b0 = nondet_int(); xv_g_b1 = nondet_int();
 }
 
 
@@ -51,14 +51,18 @@ static inline void xv_xpoll_havoc(void)
 /* "Pool descriptor" = an open eventfd with a non-zero counter (xv_evfd_readable): active_fd.c is the only place in    */
 /* the library that calls eventfd(2).                                                                                  */
 /* ================================================================================================================ */
+/* the rest of the grouped ghost object xv_epg (env/epoll_env.h), which an assigns clause can only name as a whole */
+#define XP_EPG_REST_SAME (xv_epfd == __CPROVER_old(xv_epfd) && xv_epcreate_calls == __CPROVER_old(xv_epcreate_calls))
+#define XP_EPCTL_RECORD_SAME (xv_epctl_calls == __CPROVER_old(xv_epctl_calls) && xv_epctl_op == __CPROVER_old(xv_epctl_op) && xv_epctl_fd == __CPROVER_old(xv_epctl_fd) && \
+                              xv_epctl_ret == __CPROVER_old(xv_epctl_ret) && xv_epctl_errno == __CPROVER_old(xv_epctl_errno))
 #define XP_FOR8(P) (P(0) && P(1) && P(2) && P(3) && P(4) && P(5) && P(6) && P(7))
 #define XP_FOR8A(P, a) (P(0, a) && P(1, a) && P(2, a) && P(3, a) && P(4, a) && P(5, a) && P(6, a) && P(7, a))
 #define XP_POOL_FD(d) (XV_FD_OURS(d) && xv_evfd_readable[d])
 /* descriptor-table entry i (descriptor, interest-list entry, eventfd flag) is what it was.  Stated for each of the XV_NFD
  * slots (XP_FOR8), not for a ghost index: the callers need it at descriptors they compute (their epoll instance, ...) */
-#define XP_SLOT_SAME(i) (xv_fdt.e[i].open == __CPROVER_old(xv_fdt.e[i].open) && xv_fdt.e[i].nonblock == __CPROVER_old(xv_fdt.e[i].nonblock) && \
-                         xv_fdt.e[i].seqpacket == __CPROVER_old(xv_fdt.e[i].seqpacket) && xv_ep[i].in == __CPROVER_old(xv_ep[i].in) && \
-                         xv_ep[i].mask == __CPROVER_old(xv_ep[i].mask) && xv_evfd_readable[i] == __CPROVER_old(xv_evfd_readable[i]))
+#define XP_SLOT_SAME(i) (!xv_fdt.e[i].open == !__CPROVER_old(xv_fdt.e[i].open) && !xv_fdt.e[i].nonblock == !__CPROVER_old(xv_fdt.e[i].nonblock) && \
+                         !xv_fdt.e[i].seqpacket == !__CPROVER_old(xv_fdt.e[i].seqpacket) && !xv_ep[i].in == !__CPROVER_old(xv_ep[i].in) && \
+                         xv_ep[i].mask == __CPROVER_old(xv_ep[i].mask) && !xv_evfd_readable[i] == !__CPROVER_old(xv_evfd_readable[i]))
 #define XP_ALL_SLOTS_SAME XP_FOR8(XP_SLOT_SAME)
 #define XP_LOCK_ONCE (!xv_lock_held && xv_lock_acqs == __CPROVER_old(xv_lock_acqs) + 1 && xv_lock_rels == __CPROVER_old(xv_lock_rels) + 1)
 
@@ -68,16 +72,17 @@ static inline void xv_xpoll_havoc(void)
 /* slot i: if the returned descriptor is i, it either was a pool descriptor already (and nothing about it changed) or the
  * slot was free (a brand-new descriptor, in no interest list) */
 #define AFD_GET_SLOT(i) (__CPROVER_return_value == (i) ==> \
-        (__CPROVER_old(xv_fdt.e[i].open) ? (__CPROVER_old(xv_evfd_readable[i]) && xv_ep[i].in == __CPROVER_old(xv_ep[i].in) && xv_ep[i].mask == __CPROVER_old(xv_ep[i].mask) && \
+        (__CPROVER_old(xv_fdt.e[i].open) ? (__CPROVER_old(xv_evfd_readable[i]) && !xv_ep[i].in == !__CPROVER_old(xv_ep[i].in) && xv_ep[i].mask == __CPROVER_old(xv_ep[i].mask) && \
                                             xv_eventfd_calls == __CPROVER_old(xv_eventfd_calls) && xv_open_cnt == __CPROVER_old(xv_open_cnt)) \
                                          : (!xv_ep[i].in && xv_eventfd_calls == __CPROVER_old(xv_eventfd_calls) + 1 && xv_open_cnt == __CPROVER_old(xv_open_cnt) + 1)))
 /* a reference to an always-readable, non-blocking pool descriptor -- or -1 */
-#ifdef XP_DEBUG_NOFAIL
-#define XP_DBG_M1 0
+/* XP_ASSUME_EVENTFD_OK (job xpoll.update_active_fd_eventfd_ok only, a bounded stand-in): eventfd(2) is assumed not to fail */
+#ifdef XP_ASSUME_EVENTFD_OK
+#define AFD_GET_M1 0
 #else
-#define XP_DBG_M1 (__CPROVER_return_value == -1)
+#define AFD_GET_M1 (__CPROVER_return_value == -1)
 #endif
-#define AFD_GET_RV (XP_DBG_M1 || (__CPROVER_return_value >= 0 && __CPROVER_return_value < XV_NFD && XP_POOL_FD(__CPROVER_return_value) && \
+#define AFD_GET_RV (AFD_GET_M1 || (__CPROVER_return_value >= 0 && __CPROVER_return_value < XV_NFD && XP_POOL_FD(__CPROVER_return_value) && \
                     xv_fdt.e[__CPROVER_return_value].nonblock))
 /* success: one more reference, errno untouched, at most one new descriptor (and then it is the one returned), nothing closed */
 #define AFD_GET_OK (__CPROVER_return_value >= 0 ==> (XA_REFS_NOW == xv_g_refs + 1 && xv_errno == __CPROVER_old(xv_errno) && XP_FOR8(AFD_GET_SLOT) && \
@@ -86,7 +91,7 @@ static inline void xv_xpoll_havoc(void)
 #define AFD_GET_FAIL (__CPROVER_return_value == -1 ==> (XA_REFS_NOW == xv_g_refs && xv_eventfd_calls == __CPROVER_old(xv_eventfd_calls) + 1 && xv_errno > 0 && \
                       xv_open_cnt == __CPROVER_old(xv_open_cnt) && xv_close_calls == __CPROVER_old(xv_close_calls) && XP_ALL_SLOTS_SAME))
 #define AFD_GET_FRAME_SLOT(i) (__CPROVER_return_value != (i) ==> XP_SLOT_SAME(i))
-#define AFD_GET_FRAME (XP_FOR8(AFD_GET_FRAME_SLOT) && xv_eventfd_calls >= __CPROVER_old(xv_eventfd_calls) && xv_eventfd_calls <= __CPROVER_old(xv_eventfd_calls) + 1)
+#define AFD_GET_FRAME (XP_EPG_REST_SAME && XP_EPCTL_RECORD_SAME && XP_FOR8(AFD_GET_FRAME_SLOT) && xv_eventfd_calls >= __CPROVER_old(xv_eventfd_calls) && xv_eventfd_calls <= __CPROVER_old(xv_eventfd_calls) + 1)
 
 /* put: the caller holds a reference to pool descriptor fd */
 #define AFD_PUT_REQ(fd) (AFD_REQ && xv_g_refs >= 1 && (fd) >= 0 && (fd) < XV_NFD && XP_POOL_FD(fd))
@@ -96,7 +101,7 @@ static inline void xv_xpoll_havoc(void)
                             !xv_fdt.e[fd].open && XP_FOR8A(AFD_PUT_FRAME_SLOT, fd))
 /* one reference less; the descriptor is closed -- exactly it, exactly once -- or nothing is; errno survives */
 #define AFD_PUT_POST(fd) (XA_REFS_NOW == xv_g_refs - 1 && (AFD_PUT_KEPT || AFD_PUT_CLOSED(fd)) && xv_errno == __CPROVER_old(xv_errno) && \
-                          xv_eventfd_calls == __CPROVER_old(xv_eventfd_calls))
+                          xv_eventfd_calls == __CPROVER_old(xv_eventfd_calls) && XP_EPG_REST_SAME && XP_EPCTL_RECORD_SAME)
 
 /* ================================================================================================================ */
 #ifdef XP_XPOLL
@@ -122,9 +127,10 @@ static inline void xv_xpoll_havoc(void)
 #define XP_FREE_WITNESS(x) ((x)->num_fd_regs < (x)->fd_regs_capacity ==> (XP_W_IN(x) && (x)->fd_regs[xv_w].fd == -1))
 /* descriptor d is in no slot.  Needed at the slot find_fd WOULD return, so a ghost index does not do: a quantifier with
  * CONSTANT bounds, which CBMC expands.  The expansion costs array-theory constraints quadratic in the bound, so contracts
- * that need absence explore capacities up to XP_QCAP only (64: 51 s; 256: 400 s; 1024: out of memory) */
+ * that need absence explore capacities up to XP_QCAP only (xpoll_fd_reg_add: 16: 27 s; 64: 51 s; 256: 400 s; 1024: out of memory;
+ * update_active_fd: 16: 86 s; 32: 172 s) */
 #ifndef XP_QCAP
-#define XP_QCAP 64
+#define XP_QCAP 16
 #endif
 #define XP_ABSENT(x, d) ((x)->fd_regs_capacity <= XP_QCAP && \
                          __CPROVER_forall { int q_; (0 <= q_ && q_ < XP_QCAP) ==> (q_ < (x)->fd_regs_capacity ==> (x)->fd_regs[q_].fd != (d)) })
@@ -133,18 +139,19 @@ static inline void xv_xpoll_havoc(void)
 #define XP_EPFD_OK(x) ((x)->epoll_fd == xv_epfd && XV_FD_OURS(xv_epfd) && !xv_evfd_readable[xv_epfd])
 /* registration (d, ev) agrees with the kernel: d is an open descriptor (not the epoll instance itself) that is in the
  * interest list iff ev != 0, with exactly the mask ev */
-#define XP_LIVE(d, ev) (XV_FD_OURS(d) && (d) != xv_epfd && (ev) >= 0 && xv_ep[d].in == ((ev) != 0) && ((ev) != 0 ==> xv_ep[d].mask == (uint32_t)(ev)))
+/* (_Bool ghosts are compared through `!`: a havocked _Bool may hold any non-zero representation of true) */
+#define XP_LIVE(d, ev) (XV_FD_OURS(d) && (d) != xv_epfd && (ev) >= 0 && !xv_ep[d].in == ((ev) == 0) && ((ev) != 0 ==> xv_ep[d].mask == (uint32_t)(ev)))
 /* ... or the descriptor was closed before its registration is removed (the kernel has dropped it from the list already;
  * the number may have been handed out again to a descriptor that is in no list): only removal is legal then */
 #define XP_GONE(d) (!XV_FD_OURS(d) || ((d) != xv_epfd && !xv_ep[d].in))
 /* the kernel holds d with exactly the mask ev; ev == 0: d is not in the interest list at all */
 #define XP_KERNEL_HAS(d, ev) (((ev) != 0 ==> (XV_EP_IN(d) && xv_ep[d].mask == (uint32_t)(ev))) && ((ev) == 0 ==> !XV_EP_IN(d)))
 /* no other descriptor's entry changed */
-#define XP_EP_FK_SAME (xv_ep[xv_fk].in == __CPROVER_old(xv_ep[xv_fk].in) && xv_ep[xv_fk].mask == __CPROVER_old(xv_ep[xv_fk].mask))
+#define XP_EP_FK_SAME (!xv_ep[xv_fk].in == !__CPROVER_old(xv_ep[xv_fk].in) && xv_ep[xv_fk].mask == __CPROVER_old(xv_ep[xv_fk].mask))
 #define XP_EP_SAME_EXCEPT(d) ((XP_FK_OK && xv_fk != (d)) ==> XP_EP_FK_SAME)
 #define XP_EP_SAME (XP_FK_OK ==> XP_EP_FK_SAME)
 #define XP_EPCTL_NONE (xv_epctl_calls == __CPROVER_old(xv_epctl_calls))
-#define XP_EPCTL_AT_MOST_ONE (xv_epctl_calls >= __CPROVER_old(xv_epctl_calls) && xv_epctl_calls <= __CPROVER_old(xv_epctl_calls) + 1)
+#define XP_EPCTL_AT_MOST_ONE (xv_epctl_calls >= __CPROVER_old(xv_epctl_calls) && xv_epctl_calls <= __CPROVER_old(xv_epctl_calls) + 1 && XP_EPG_REST_SAME)
 #define XP_EPCTL_ONE(op, d) (xv_epctl_calls == __CPROVER_old(xv_epctl_calls) + 1 && xv_epctl_op == (op) && xv_epctl_fd == (d))
 
 /* ---- xpoll_get_fd (C16) ------------------------------------------------------------------------------------------- */
@@ -227,7 +234,7 @@ __CPROVER_ensures((__CPROVER_old(reg->event) == 0 && new_event != 0) ==> XP_EPCT
 __CPROVER_ensures((__CPROVER_old(reg->event) != 0 && new_event != 0 && __CPROVER_old(reg->event) != new_event) ==> XP_EPCTL_ONE(EPOLL_CTL_MOD, reg->fd))
 __CPROVER_ensures((__CPROVER_old(reg->event) != 0 && new_event == 0) ==> XP_EPCTL_ONE(EPOLL_CTL_DEL, reg->fd))
 /* errno survives (also the tolerated EBADF/ENOENT of a removal) */
-__CPROVER_ensures(xv_errno == __CPROVER_old(xv_errno))
+__CPROVER_ensures(xv_errno == __CPROVER_old(xv_errno) && XP_EPCTL_AT_MOST_ONE)
 ;
 
 /* ---- xpoll_fd_reg_add ------------------------------------------------------------------------------------------------ */
@@ -246,13 +253,15 @@ __CPROVER_assigns(xpoll->num_fd_regs, XV_EPCTL_ASSIGNS)
 __CPROVER_assigns(xpoll->num_fd_regs == xpoll->fd_regs_capacity: xpoll->fd_regs, xpoll->fd_regs_capacity)
 __CPROVER_assigns(xpoll->num_fd_regs < xpoll->fd_regs_capacity: __CPROVER_object_whole(xpoll->fd_regs))
 __CPROVER_frees(xpoll->num_fd_regs == xpoll->fd_regs_capacity: xpoll->fd_regs)
-/* the registration: id inside the table, slot holds (fd, event), one more registration, growth only when full */
-__CPROVER_ensures(__CPROVER_return_value >= 0 && __CPROVER_return_value < xpoll->fd_regs_capacity)
-__CPROVER_ensures(xpoll->fd_regs[__CPROVER_return_value].fd == fd && xpoll->fd_regs[__CPROVER_return_value].event == event)
-__CPROVER_ensures(xpoll->num_fd_regs == xv_g_i1 + 1 && xpoll->num_fd_regs <= xpoll->fd_regs_capacity)
+/* growth only when the table is full: then a fresh array of (capacity + 1) * 2 slots, else the array stays where it is
+ * (FIRST among the ensures clauses: a replaced call must have a valid array before the clauses below talk about its slots) */
 __CPROVER_ensures(xpoll->fd_regs_capacity == (xv_g_i1 == xv_g_i0 ? XP_NEXT_CAP(xv_g_i0) : xv_g_i0))
 __CPROVER_ensures((xv_g_i1 == xv_g_i0 ==> __CPROVER_is_fresh(xpoll->fd_regs, sizeof(struct xpoll_fd_reg) * (size_t)xpoll->fd_regs_capacity)) && \
                   (xv_g_i1 != xv_g_i0 ==> xpoll->fd_regs == __CPROVER_old(xpoll->fd_regs)))
+/* the registration: id inside the table, slot holds (fd, event), one more registration */
+__CPROVER_ensures(__CPROVER_return_value >= 0 && __CPROVER_return_value < xpoll->fd_regs_capacity)
+__CPROVER_ensures(xpoll->fd_regs[__CPROVER_return_value].fd == fd && xpoll->fd_regs[__CPROVER_return_value].event == event)
+__CPROVER_ensures(xpoll->num_fd_regs == xv_g_i1 + 1 && xpoll->num_fd_regs <= xpoll->fd_regs_capacity)
 /* PO[C04,C16] xpoll_fd_reg_add.kernel_mask_exact: the kernel watches fd for exactly `event`; event 0: fd is not in the interest list */
 __CPROVER_ensures(XP_KERNEL_HAS(fd, event))
 /* PO[C16] xpoll_fd_reg_add.others_untouched: no other descriptor's kernel entry changes */
@@ -403,29 +412,31 @@ static int allocate_bell_reg_idx(struct xpoll *xpoll)
 __CPROVER_requires(XP_FRESH(xpoll) && XP_BELLS_RANGE(xpoll))
 __CPROVER_requires(XP_BELLS_MEM(xpoll))
 __CPROVER_requires(XP_BFREE_WITNESS(xpoll) && XP_BB_BOUND(xpoll) && XP_B_BOUND(xpoll))
-__CPROVER_requires(xpoll->bell_regs_capacity == xv_g_i0 && xpoll->num_bell_regs == xv_g_i1)
+__CPROVER_requires(xpoll->bell_regs_capacity == xv_g_b0 && xpoll->num_bell_regs == xv_g_b1)
 __CPROVER_assigns(xpoll->num_bell_regs)
 __CPROVER_assigns(XP_BGROWS(xpoll): xpoll->bell_regs, xpoll->bell_regs_capacity)
 __CPROVER_assigns(xpoll->num_bell_regs < xpoll->bell_regs_capacity: __CPROVER_object_whole(xpoll->bell_regs))
 __CPROVER_frees(XP_BGROWS(xpoll): xpoll->bell_regs)
-__CPROVER_ensures(xpoll->num_bell_regs == xv_g_i1 + 1 && xpoll->num_bell_regs <= xpoll->bell_regs_capacity)
-__CPROVER_ensures(xpoll->bell_regs_capacity == (xv_g_i1 == xv_g_i0 ? XP_NEXT_CAP(xv_g_i0) : xv_g_i0))
-__CPROVER_ensures((xv_g_i1 == xv_g_i0 ==> __CPROVER_is_fresh(xpoll->bell_regs, sizeof(struct xpoll_bell_reg) * (size_t)xpoll->bell_regs_capacity)) && \
-                  (xv_g_i1 != xv_g_i0 ==> xpoll->bell_regs == __CPROVER_old(xpoll->bell_regs)))
+__CPROVER_ensures(xpoll->num_bell_regs == xv_g_b1 + 1 && xpoll->num_bell_regs <= xpoll->bell_regs_capacity)
+__CPROVER_ensures(xpoll->bell_regs_capacity == (xv_g_b1 == xv_g_b0 ? XP_NEXT_CAP(xv_g_b0) : xv_g_b0))
+__CPROVER_ensures((xv_g_b1 == xv_g_b0 ==> __CPROVER_is_fresh(xpoll->bell_regs, sizeof(struct xpoll_bell_reg) * (size_t)xpoll->bell_regs_capacity)) && \
+                  (xv_g_b1 != xv_g_b0 ==> xpoll->bell_regs == __CPROVER_old(xpoll->bell_regs)))
 /* the slot handed out is inside the table and marked in use; it was free (or is the first new one) */
 __CPROVER_ensures(__CPROVER_return_value >= 0 && __CPROVER_return_value < xpoll->bell_regs_capacity && !xpoll->bell_regs[__CPROVER_return_value].free)
-__CPROVER_ensures(xv_g_i1 == xv_g_i0 ==> __CPROVER_return_value == xv_g_i0)
-__CPROVER_ensures((xv_b >= 0 && xv_b < xv_g_i0 && xv_b == __CPROVER_return_value) ==> xv_g_bfree)
+__CPROVER_ensures(xv_g_b1 == xv_g_b0 ==> __CPROVER_return_value == xv_g_b0)
+__CPROVER_ensures((xv_b >= 0 && xv_b < xv_g_b0 && xv_b == __CPROVER_return_value) ==> xv_g_bfree)
 /* every other old byte is what it was (the `free` flag of the slot is byte 0 of its 2 bytes); the other new slots are free */
-__CPROVER_ensures((xv_keep < (size_t)xv_g_i0 * sizeof(struct xpoll_bell_reg) && xv_keep != (size_t)__CPROVER_return_value * sizeof(struct xpoll_bell_reg)) ==> XP_BB(xpoll) == xv_g_bbyte)
-__CPROVER_ensures((xv_b >= xv_g_i0 && xv_b < xpoll->bell_regs_capacity && xv_b != __CPROVER_return_value) ==> xpoll->bell_regs[xv_b].free)
+__CPROVER_ensures((xv_keep < (size_t)xv_g_b0 * sizeof(struct xpoll_bell_reg) && xv_keep != (size_t)__CPROVER_return_value * sizeof(struct xpoll_bell_reg)) ==> XP_BB(xpoll) == xv_g_bbyte)
+__CPROVER_ensures((xv_b >= xv_g_b0 && xv_b < xpoll->bell_regs_capacity && xv_b != __CPROVER_return_value) ==> xpoll->bell_regs[xv_b].free)
 ;
 
 
 /* ---- update_active_fd (C04, C16, C08) --------------------------------------------------------------------------------- */
 #define XP_AFD_ID_OK(x) (XP_IDX_USED(x, (x)->active_fd_reg_id) && (x)->fd_regs[(x)->active_fd_reg_id].fd == (x)->active_fd)
-/* the xpoll holds one reference to pool descriptor active_fd, registered in slot active_fd_reg_id, kernel entry in step */
-#define XP_AFD_INV(x) ((x)->active_fd >= 0 ==> ((x)->active_fd < XV_NFD && XP_POOL_FD((x)->active_fd) && XP_AFD_ID_OK(x) && \
+/* no reference: both fields -1 (xpoll_create).  Otherwise the xpoll holds one reference to pool descriptor active_fd, registered
+ * in slot active_fd_reg_id, kernel entry in step */
+#define XP_AFD_INV(x) (((x)->active_fd < 0 ==> ((x)->active_fd == -1 && (x)->active_fd_reg_id == -1)) && XP_AFD_HELD(x))
+#define XP_AFD_HELD(x) ((x)->active_fd >= 0 ==> ((x)->active_fd < XV_NFD && XP_POOL_FD((x)->active_fd) && XP_AFD_ID_OK(x) && \
                        XP_LIVE((x)->active_fd, (x)->fd_regs[(x)->active_fd_reg_id].event) && (x)->num_fd_regs >= 1 && xv_afd_refs >= 1))
 /* while it holds none: every registered descriptor is an open descriptor that is not an eventfd (so neither a pool
  * descriptor nor a number eventfd(2) could hand out), and no pool descriptor is in this instance's interest list */
@@ -489,7 +500,291 @@ __CPROVER_ensures(xv_errno == __CPROVER_old(xv_errno))
 __CPROVER_ensures(!xv_lock_held)
 ;
 
+
+/* ---- the public bell operations (C04, C16, C08) ------------------------------------------------------------------------ */
+/* state between public calls: everything update_active_fd needs, counters below XV_CALLS_MAX, and "reference held iff bells" */
+#define XP_PUB_SHAPE(x) (XP_FRESH(x) && XP_REGS_RANGE(x) && XP_BELLS_RANGE(x) && (x)->bell_regs_capacity <= XP_QCAP)
+#define XP_PUB_REQUIRES(x) (XP_RANGE(XP_SLACK_PUBLIC) && XP_EPFD_OK(x) && AFD_REQ && XP_AFD_INV(x) && XP_FREE_WITNESS(x) && XP_UPD_BINDINGS(x) && XP_AFD_IFF_BELLS(x) && \
+                            (x)->bell_regs_capacity == xv_g_b0 && (x)->num_bell_regs == xv_g_b1 && XP_BB_BOUND(x) && XP_B_BOUND(x))
+/* what every bell operation re-establishes and guarantees */
+#define XP_PUB_ENSURES(x) (XP_AFD_IFF_BELLS(x) && XP_AFD_INV(x) && !xv_lock_held)
+#define XP_BELL_IDX_USED(x, i) ((i) >= 0 && (i) < (x)->bell_regs_capacity && !(x)->bell_regs[i].free)
+#define XP_NO_REF_CHANGE(x) (xv_afd_refs == xv_g_refs && (x)->num_fd_regs == xv_g_i1 && (x)->active_fd == xv_g_i2 && (x)->active_fd_reg_id == xv_g_i3 && \
+                             xv_eventfd_calls == __CPROVER_old(xv_eventfd_calls) && xv_close_calls == __CPROVER_old(xv_close_calls))
+
+int xpoll_bell_reg_add(struct xpoll *xpoll, bool ringing)
+__CPROVER_requires(XP_PUB_SHAPE(xpoll) && (XP_BGROWS(xpoll) ==> XP_NEXT_CAP(xpoll->bell_regs_capacity) <= XP_QCAP))
+__CPROVER_requires(XP_REGS_MEM(xpoll))
+__CPROVER_requires(XP_BELLS_MEM(xpoll))
+__CPROVER_requires(XP_PUB_REQUIRES(xpoll) && XP_BFREE_WITNESS(xpoll))
+__CPROVER_requires(XP_AFD_NONE(xpoll))
+__CPROVER_assigns(xpoll->num_bell_regs, XP_UPD_ASSIGNS(xpoll))
+__CPROVER_assigns(XP_BGROWS(xpoll): xpoll->bell_regs, xpoll->bell_regs_capacity)
+__CPROVER_assigns(xpoll->num_bell_regs < xpoll->bell_regs_capacity: __CPROVER_object_whole(xpoll->bell_regs))
+__CPROVER_frees(XP_BGROWS(xpoll): xpoll->bell_regs)
+__CPROVER_assigns((xpoll->active_fd < 0 && XP_GROWS(xpoll)): xpoll->fd_regs, xpoll->fd_regs_capacity)
+__CPROVER_assigns(xpoll->fd_regs_capacity > 0: __CPROVER_object_whole(xpoll->fd_regs))
+__CPROVER_frees((xpoll->active_fd < 0 && XP_GROWS(xpoll)): xpoll->fd_regs)
+/* the two tables after the call (first: the clauses below talk about their slots) */
+__CPROVER_ensures(xpoll->bell_regs_capacity == (xv_g_b1 == xv_g_b0 ? XP_NEXT_CAP(xv_g_b0) : xv_g_b0))
+__CPROVER_ensures((xv_g_b1 == xv_g_b0 ==> __CPROVER_is_fresh(xpoll->bell_regs, sizeof(struct xpoll_bell_reg) * (size_t)xpoll->bell_regs_capacity)) && \
+                  (xv_g_b1 != xv_g_b0 ==> xpoll->bell_regs == __CPROVER_old(xpoll->bell_regs)))
+__CPROVER_ensures(XP_UPD_REGS_MEM(xpoll))
+/* the new bell: a slot in use with the requested state; one more bell */
+__CPROVER_ensures(XP_BELL_IDX_USED(xpoll, __CPROVER_return_value) && !xpoll->bell_regs[__CPROVER_return_value].ringing == !ringing && xpoll->num_bell_regs == xv_g_b1 + 1)
+__CPROVER_ensures(XP_PUB_ENSURES(xpoll))
+/* PO[C04] xpoll_bell_reg_add.ringing_bell_wakes: some bell rings (the new one included) => the always-readable descriptor is registered with EPOLLIN */
+__CPROVER_ensures(XP_RINGING_WAKES(xpoll))
+/* PO[C16] xpoll_bell_reg_add.quiet_unless_ringing */
+__CPROVER_ensures(XP_QUIET_UNLESS_RINGING(xpoll))
+/* PO[C04] xpoll_bell_reg_add.other_bells_untouched: the slot used was free (or is new); every other bell keeps its state */
+__CPROVER_ensures((xv_b >= 0 && xv_b < xv_g_b0 && xv_b == __CPROVER_return_value) ==> xv_g_bfree)
+__CPROVER_ensures((xv_keep < (size_t)xv_g_b0 * sizeof(struct xpoll_bell_reg) && !(xv_keep >= (size_t)__CPROVER_return_value * sizeof(struct xpoll_bell_reg) && \
+                   xv_keep < ((size_t)__CPROVER_return_value + 1) * sizeof(struct xpoll_bell_reg))) ==> XP_BB(xpoll) == xv_g_bbyte)
+/* PO[C08] xpoll_bell_reg_add.one_reference: the first bell acquires exactly one reference to a pool descriptor, later ones none */
+__CPROVER_ensures(xv_g_i2 < 0 ? (xv_afd_refs == xv_g_refs + 1 && xpoll->num_fd_regs == xv_g_i1 + 1) : XP_NO_REF_CHANGE(xpoll))
+/* PO[C16] xpoll_bell_reg_add.others_untouched */
+__CPROVER_ensures((XP_FK_OK && xv_fk != xpoll->active_fd) ==> XP_EP_FK_SAME)
+/* PO[C16] xpoll_bell_reg_add.fd_stable */
+__CPROVER_ensures(xpoll->epoll_fd == __CPROVER_old(xpoll->epoll_fd))
+/* PO[C04] xpoll_bell_reg_add.errno_survives */
+__CPROVER_ensures(xv_errno == __CPROVER_old(xv_errno))
+;
+
+void xpoll_bell_reg_mod(struct xpoll *xpoll, int reg_idx, bool ringing)
+__CPROVER_requires(XP_PUB_SHAPE(xpoll))
+__CPROVER_requires(XP_REGS_MEM(xpoll))
+__CPROVER_requires(XP_BELLS_MEM(xpoll))
+/* caller obligation (asserted by get_bell_reg): reg_idx names a bell in use; hence there is at least one */
+__CPROVER_requires(XP_PUB_REQUIRES(xpoll) && XP_BELL_IDX_USED(xpoll, reg_idx) && xpoll->num_bell_regs >= 1)
+/* bells and interest list agree on entry (what every bell operation ensures): needed when the call changes nothing */
+__CPROVER_requires(XP_RINGING_WAKES(xpoll) && XP_QUIET_UNLESS_RINGING(xpoll))
+__CPROVER_assigns(xpoll->bell_regs[reg_idx].ringing, XP_UPD_ASSIGNS(xpoll))
+__CPROVER_assigns(xpoll->fd_regs_capacity > 0: __CPROVER_object_whole(xpoll->fd_regs))
+__CPROVER_ensures(!xpoll->bell_regs[reg_idx].ringing == !ringing && !xpoll->bell_regs[reg_idx].free)
+__CPROVER_ensures(XP_PUB_ENSURES(xpoll))
+/* PO[C04] xpoll_bell_reg_mod.ringing_bell_wakes */
+__CPROVER_ensures(XP_RINGING_WAKES(xpoll))
+/* PO[C16] xpoll_bell_reg_mod.quiet_unless_ringing */
+__CPROVER_ensures(XP_QUIET_UNLESS_RINGING(xpoll))
+/* PO[C04] xpoll_bell_reg_mod.other_bells_untouched */
+__CPROVER_ensures((XP_B_IN(xpoll) && xv_b != reg_idx) ==> (!xpoll->bell_regs[xv_b].free == !xv_g_bfree && !xpoll->bell_regs[xv_b].ringing == !xv_g_bring))
+/* PO[C08] xpoll_bell_reg_mod.no_reference_change: no reference acquired or released, no descriptor made or closed, tables as big as before */
+__CPROVER_ensures(XP_NO_REF_CHANGE(xpoll) && xpoll->num_bell_regs == xv_g_b1 && xpoll->fd_regs_capacity == xv_g_i0 && xpoll->fd_regs == __CPROVER_old(xpoll->fd_regs))
+/* PO[C16] xpoll_bell_reg_mod.others_untouched */
+__CPROVER_ensures((XP_FK_OK && xv_fk != xpoll->active_fd) ==> XP_EP_FK_SAME)
+/* PO[C16] xpoll_bell_reg_mod.fd_stable */
+__CPROVER_ensures(xpoll->epoll_fd == __CPROVER_old(xpoll->epoll_fd))
+/* PO[C04] xpoll_bell_reg_mod.errno_survives */
+__CPROVER_ensures(xv_errno == __CPROVER_old(xv_errno))
+;
+
+/* if this is the last bell, every other slot is free (num_bell_regs counts the bells in use; slot xv_b) */
+#define XP_LAST_BELL_ALONE(x, i) (((x)->num_bell_regs == 1 && XP_B_IN(x) && xv_b != (i)) ==> (x)->bell_regs[xv_b].free)
+#define XP_BELL_DEL_REQUIRES(x, i) (XP_PUB_REQUIRES(x) && XP_BELL_IDX_USED(x, i) && (x)->num_bell_regs >= 1 && XP_LAST_BELL_ALONE(x, i))
+/* the slot is free, one bell less; with the last bell the pool reference and its registration go */
+#define XP_BELL_DEL_DONE(x, i) ((x)->bell_regs[i].free && (x)->num_bell_regs == xv_g_b1 - 1 && \
+        (xv_g_b1 == 1 ? (!XV_EP_IN(xv_g_i2) && xv_afd_refs == xv_g_refs - 1 && (x)->num_fd_regs == xv_g_i1 - 1 && (x)->fd_regs[xv_g_i3].fd == -1) : XP_NO_REF_CHANGE(x)) && \
+        (x)->fd_regs_capacity == xv_g_i0 && (x)->fd_regs == __CPROVER_old((x)->fd_regs))
+void xpoll_bell_reg_del(struct xpoll *xpoll, int reg_idx)
+__CPROVER_requires(XP_PUB_SHAPE(xpoll))
+__CPROVER_requires(XP_REGS_MEM(xpoll))
+__CPROVER_requires(XP_BELLS_MEM(xpoll))
+__CPROVER_requires(XP_BELL_DEL_REQUIRES(xpoll, reg_idx))
+__CPROVER_assigns(xpoll->bell_regs[reg_idx].free, xpoll->num_bell_regs, XP_UPD_ASSIGNS(xpoll))
+__CPROVER_assigns(xpoll->fd_regs_capacity > 0: __CPROVER_object_whole(xpoll->fd_regs))
+/* PO[C08] xpoll_bell_reg_del.released_with_last_bell: slot free, count down; the last bell takes the pool reference, its registration and its kernel entry with it */
+__CPROVER_ensures(XP_BELL_DEL_DONE(xpoll, reg_idx))
+__CPROVER_ensures(XP_PUB_ENSURES(xpoll))
+/* PO[C04] xpoll_bell_reg_del.ringing_bell_wakes: the remaining ringing bells still wake */
+__CPROVER_ensures(XP_RINGING_WAKES(xpoll))
+/* PO[C16] xpoll_bell_reg_del.quiet_unless_ringing: the deleted bell no longer does */
+__CPROVER_ensures(XP_QUIET_UNLESS_RINGING(xpoll))
+/* PO[C04] xpoll_bell_reg_del.other_bells_untouched */
+__CPROVER_ensures((XP_B_IN(xpoll) && xv_b != reg_idx) ==> (!xpoll->bell_regs[xv_b].free == !xv_g_bfree && !xpoll->bell_regs[xv_b].ringing == !xv_g_bring))
+/* PO[C16] xpoll_bell_reg_del.others_untouched */
+__CPROVER_ensures((XP_FK_OK && xv_fk != xv_g_i2) ==> XP_EP_FK_SAME)
+/* PO[C16] xpoll_bell_reg_del.fd_stable */
+__CPROVER_ensures(xpoll->epoll_fd == __CPROVER_old(xpoll->epoll_fd))
+/* PO[C08] xpoll_bell_reg_del.errno_survives: used on the error paths of the transports */
+__CPROVER_ensures(xv_errno == __CPROVER_old(xv_errno))
+;
+
+void xpoll_bell_reg_del_if_valid(struct xpoll *xpoll, int reg_id)
+__CPROVER_requires(reg_id >= 0 ==> XP_PUB_SHAPE(xpoll))
+__CPROVER_requires(reg_id >= 0 ==> XP_REGS_MEM(xpoll))
+__CPROVER_requires(reg_id >= 0 ==> XP_BELLS_MEM(xpoll))
+__CPROVER_requires(XP_RANGE(XP_SLACK_PUBLIC) && (reg_id >= 0 ==> XP_BELL_DEL_REQUIRES(xpoll, reg_id)))
+__CPROVER_assigns(reg_id >= 0: xpoll->bell_regs[reg_id].free, xpoll->num_bell_regs, XP_UPD_ASSIGNS(xpoll))
+__CPROVER_assigns((reg_id >= 0 && xpoll->fd_regs_capacity > 0): __CPROVER_object_whole(xpoll->fd_regs))
+/* PO[C08] xpoll_bell_reg_del_if_valid.released_with_last_bell */
+__CPROVER_ensures(reg_id >= 0 ==> (XP_BELL_DEL_DONE(xpoll, reg_id) && XP_PUB_ENSURES(xpoll)))
+/* PO[C04,C16] xpoll_bell_reg_del_if_valid.bells_and_kernel_agree */
+__CPROVER_ensures(reg_id >= 0 ==> (XP_RINGING_WAKES(xpoll) && XP_QUIET_UNLESS_RINGING(xpoll)))
+/* PO[C08] xpoll_bell_reg_del_if_valid.invalid_is_noop: a negative id touches nothing */
+__CPROVER_ensures(reg_id < 0 ==> (XP_EPCTL_NONE && XP_EP_SAME && xv_close_calls == __CPROVER_old(xv_close_calls) && xv_eventfd_calls == __CPROVER_old(xv_eventfd_calls)))
+__CPROVER_ensures(xv_errno == __CPROVER_old(xv_errno))
+;
+
+/* ---- xpoll_create / xpoll_destroy (C08, C16) ---------------------------------------------------------------------------- */
+#define XP_CREATE_SLOT(i) (xv_epfd == (i) ? (!__CPROVER_old(xv_fdt.e[i].open) && xv_fdt.e[i].open) : \
+                           (!xv_fdt.e[i].open == !__CPROVER_old(xv_fdt.e[i].open) && !xv_fdt.e[i].nonblock == !__CPROVER_old(xv_fdt.e[i].nonblock) && \
+                            !xv_fdt.e[i].seqpacket == !__CPROVER_old(xv_fdt.e[i].seqpacket) && !xv_evfd_readable[i] == !__CPROVER_old(xv_evfd_readable[i])))
+#define XP_FDT_SLOT_SAME(i) (!xv_fdt.e[i].open == !__CPROVER_old(xv_fdt.e[i].open) && !xv_fdt.e[i].nonblock == !__CPROVER_old(xv_fdt.e[i].nonblock) && \
+                             !xv_fdt.e[i].seqpacket == !__CPROVER_old(xv_fdt.e[i].seqpacket))
+#define XP_EP_EMPTY_SLOT(i) (!xv_ep[i].in)
+struct xpoll *xpoll_create(void *log_ref)
+__CPROVER_requires(XP_RANGE(XP_SLACK_PUBLIC))
+__CPROVER_assigns(XV_EPCREATE_ASSIGNS)
+/* exactly one attempt to make an epoll instance */
+__CPROVER_ensures(xv_epcreate_calls == __CPROVER_old(xv_epcreate_calls) + 1)
+/* PO[C08] xpoll_create.failure_reported_nothing_leaked: epoll_create1 fails (EMFILE, ENFILE, ENOMEM ...) => NULL with its errno, no descriptor more than before, table untouched, no abort */
+__CPROVER_ensures(__CPROVER_return_value == NULL ==> (xv_errno > 0 && xv_open_cnt == __CPROVER_old(xv_open_cnt) && XP_FOR8(XP_FDT_SLOT_SAME)))
+/* PO[C08] xpoll_create.success_one_descriptor: exactly one new descriptor -- the epoll instance, recorded in the object; empty tables; no pool reference */
+__CPROVER_ensures(__CPROVER_return_value != NULL ==> (__CPROVER_is_fresh(__CPROVER_return_value, sizeof(struct xpoll)) && \
+        __CPROVER_return_value->epoll_fd == xv_epfd && XV_FD_OURS(xv_epfd) && !xv_evfd_readable[xv_epfd] && xv_open_cnt == __CPROVER_old(xv_open_cnt) + 1 && XP_FOR8(XP_CREATE_SLOT) && \
+        __CPROVER_return_value->fd_regs == NULL && __CPROVER_return_value->fd_regs_capacity == 0 && __CPROVER_return_value->num_fd_regs == 0 && \
+        __CPROVER_return_value->bell_regs == NULL && __CPROVER_return_value->bell_regs_capacity == 0 && __CPROVER_return_value->num_bell_regs == 0 && \
+        __CPROVER_return_value->active_fd == -1 && __CPROVER_return_value->active_fd_reg_id == -1 && __CPROVER_return_value->log_ref == log_ref && \
+        xv_errno == __CPROVER_old(xv_errno)))
+/* PO[C16] xpoll_create.interest_list_empty: nothing makes the new descriptor readable yet */
+__CPROVER_ensures(__CPROVER_return_value != NULL ==> XP_FOR8(XP_EP_EMPTY_SLOT))
+;
+
+#define XP_DESTROY_SLOT(i) (((i) != xv_g_i0 && (i) != xv_g_i2) ==> XP_SLOT_SAME(i))
+void xpoll_destroy(struct xpoll *xpoll)
+__CPROVER_requires(xpoll != NULL ==> (XP_FRESH(xpoll) && XP_REGS_RANGE(xpoll) && XP_BELLS_RANGE(xpoll)))
+__CPROVER_requires(xpoll != NULL ==> XP_REGS_MEM(xpoll))
+__CPROVER_requires(xpoll != NULL ==> XP_BELLS_MEM(xpoll))
+__CPROVER_requires(XP_RANGE(XP_SLACK_PUBLIC) && AFD_REQ && (xpoll != NULL ==> (XP_EPFD_OK(xpoll) && XP_AFD_INV(xpoll) && xpoll->epoll_fd == xv_g_i0 && xpoll->active_fd == xv_g_i2 && \
+                   xv_open_cnt >= (xpoll->active_fd >= 0 ? 2 : 1))))   /* xv_open_cnt counts the open descriptors: at least these */
+__CPROVER_assigns(xpoll != NULL: AFD_ASSIGNS, xv_afd_refs)
+__CPROVER_frees(xpoll != NULL: xpoll, xpoll->fd_regs, xpoll->bell_regs)
+/* PO[C08] xpoll_destroy.closes_the_epoll_instance: the epoll descriptor is closed; apart from it only the pool descriptor may be (by active_fd_put, when this was its last user) */
+__CPROVER_ensures(xpoll != NULL ==> (!xv_fdt.e[xv_g_i0].open && XP_FOR8(XP_DESTROY_SLOT) && \
+        xv_close_calls >= __CPROVER_old(xv_close_calls) + 1 && xv_close_calls <= __CPROVER_old(xv_close_calls) + (xv_g_i2 >= 0 ? 2 : 1) && \
+        xv_open_cnt == __CPROVER_old(xv_open_cnt) - (xv_close_calls - __CPROVER_old(xv_close_calls))))
+/* PO[C08] xpoll_destroy.releases_the_pool_reference: exactly the one reference held, if any */
+__CPROVER_ensures(xpoll != NULL ==> xv_afd_refs == xv_g_refs - (xv_g_i2 >= 0 ? 1 : 0))
+/* PO[C08] xpoll_destroy.frees_everything: the object and both tables */
+__CPROVER_ensures(xpoll != NULL ==> (__CPROVER_was_freed(xpoll) && (__CPROVER_old(xpoll->fd_regs) != NULL ==> __CPROVER_was_freed(__CPROVER_old(xpoll->fd_regs))) && \
+        (__CPROVER_old(xpoll->bell_regs) != NULL ==> __CPROVER_was_freed(__CPROVER_old(xpoll->bell_regs)))))
+/* PO[C08] xpoll_destroy.null_is_noop */
+__CPROVER_ensures(xpoll == NULL ==> (xv_close_calls == __CPROVER_old(xv_close_calls) && xv_open_cnt == __CPROVER_old(xv_open_cnt) && xv_afd_refs == xv_g_refs && XP_ALL_SLOTS_SAME))
+/* PO[C08] xpoll_destroy.errno_survives: called on the error paths of xcm_connect/xcm_server/xcm_accept */
+__CPROVER_ensures(xv_errno == __CPROVER_old(xv_errno))
+;
+
 #endif /* XP_XPOLL */
+
+
+/* ================================================================================================================ */
+/* active_fd.c (C08, C15, C04).  bounded: the process-wide list holds at most 2 nodes on entry (ghost xv_g_n);        */
+/* the user counts are arbitrary within their invariant 1..MAX_USERS_PER_FD.                                          */
+/* ================================================================================================================ */
+#ifdef XP_AFD
+int xv_g_n;                      /* ghost constant: number of list nodes at entry (0..2) */
+int xv_g_c0, xv_g_c1, xv_g_f0, xv_g_f1;   /* ghost constants: cnt / fd of the first and second node at entry */
+struct xv_afd_snap nondet_xv_afd_snap(void);
+static inline void xv_afd_havoc(void)
+{
+    xv_g_n = nondet_int(); xv_g_c0 = nondet_int(); xv_g_c1 = nondet_int(); xv_g_f0 = nondet_int(); xv_g_f1 = nondet_int();
+    xv_sh_l = nondet_xv_afd_snap(); xv_sh_u = nondet_xv_afd_snap();
+}
+#define AH (active_fds.lh_first)
+#define AN1 (active_fds.lh_first->elem.le_next)
+#define AFD_NSZ sizeof(struct active_fd)
+#define AFD_C(p) ((p) != NULL ? (p)->cnt : 0)
+#define AFD_NX(p) ((p) != NULL ? (p)->elem.le_next : (struct active_fd *)NULL)
+/* the references handed out = the sum of the user counts (up to 3 nodes: 2 on entry, one more after a creation) */
+#define XA_REFS_NOW (AFD_C(AH) + AFD_C(AFD_NX(AH)) + AFD_C(AFD_NX(AFD_NX(AH))))
+/* a well-formed BSD list of xv_g_n nodes */
+#define AFD_SHAPE ((xv_g_n >= 0 && xv_g_n <= 2) && (xv_g_n == 0 ==> AH == NULL) && \
+        (xv_g_n >= 1 ==> (__CPROVER_is_fresh(AH, AFD_NSZ) && AH->elem.le_prev == &active_fds.lh_first)) && \
+        (xv_g_n == 1 ==> AH->elem.le_next == NULL) && \
+        (xv_g_n == 2 ==> (__CPROVER_is_fresh(AH->elem.le_next, AFD_NSZ) && AN1->elem.le_prev == &AH->elem.le_next && AN1->elem.le_next == NULL)))
+/* module invariant of a node: 1..MAX_USERS_PER_FD users; its descriptor is an open, non-blocking, readable eventfd */
+#define AFD_NODE_OK(p) ((p)->cnt >= 1 && (p)->cnt <= MAX_USERS_PER_FD && (p)->fd >= 0 && (p)->fd < XV_NFD && XP_POOL_FD((p)->fd) && xv_fdt.e[(p)->fd].nonblock)
+#define AFD_NODES_OK ((xv_g_n >= 1 ==> (AFD_NODE_OK(AH) && AH->cnt == xv_g_c0 && AH->fd == xv_g_f0)) && \
+                      (xv_g_n == 2 ==> (AFD_NODE_OK(AN1) && AN1->cnt == xv_g_c1 && AN1->fd == xv_g_f1 && xv_g_f0 != xv_g_f1)))
+/* the pool descriptors are exactly the descriptors of the nodes (active_fd.c is the only caller of eventfd(2)) */
+#define AFD_REP_SLOT(i) (XP_POOL_FD(i) ==> ((xv_g_n >= 1 && xv_g_f0 == (i)) || (xv_g_n == 2 && xv_g_f1 == (i))))
+#define AFD_INV_IN (AFD_NODES_OK && XP_FOR8(AFD_REP_SLOT))
+/* C15 */
+#define AFD_LOCK_DISCIPLINE (XP_LOCK_ONCE && xv_lock_obj == &active_fd_lock)
+#define AFD_SNAP_IS(s, h, a, b) ((s).head == (h) && (s).c0 == (a) && (s).c1 == (b))
+#define AFD_NO_WRITE_BEFORE_LOCK (xv_sh_l.head == __CPROVER_old(active_fds.lh_first) && (xv_g_n >= 1 ==> (xv_sh_l.c0 == xv_g_c0 && xv_sh_l.f0 == xv_g_f0)) && \
+                                  (xv_g_n == 2 ==> (xv_sh_l.c1 == xv_g_c1 && xv_sh_l.f1 == xv_g_f1)))
+#define AFD_NO_WRITE_AFTER_UNLOCK (xv_sh_u.head == AH && (AH != NULL ==> (xv_sh_u.c0 == AH->cnt && xv_sh_u.f0 == AH->fd)) && \
+                                   ((AH != NULL && AH->elem.le_next != NULL) ==> (xv_sh_u.c1 == AH->elem.le_next->cnt && xv_sh_u.f1 == AH->elem.le_next->fd)))
+#define AFD_SNAP_ASSIGNS __CPROVER_object_whole(&xv_sh_l), __CPROVER_object_whole(&xv_sh_u)
+
+/* which case active_fd_get is in, from the entry state */
+#define AFD_TAKES0 (xv_g_n >= 1 && xv_g_c0 < MAX_USERS_PER_FD)
+#define AFD_TAKES1 (!AFD_TAKES0 && xv_g_n == 2 && xv_g_c1 < MAX_USERS_PER_FD)
+#define AFD_CREATES (!AFD_TAKES0 && !AFD_TAKES1)
+int active_fd_get(void)
+__CPROVER_requires(AFD_SHAPE)
+__CPROVER_requires(AFD_REQ && AFD_INV_IN)
+__CPROVER_assigns(AFD_ASSIGNS, AFD_SNAP_ASSIGNS, active_fds.lh_first)
+__CPROVER_assigns(xv_g_n >= 1: AH->cnt, AH->elem.le_prev)
+__CPROVER_assigns(xv_g_n == 2: AN1->cnt)
+/* ---- the contract xpoll.c relies on (same text as on the XP_XPOLL side) */
+__CPROVER_ensures(AFD_GET_RV)
+/* PO[C08] active_fd_get.success_one_reference: a reference to an always-readable pool descriptor; at most one new descriptor, and then it is the one returned */
+__CPROVER_ensures(AFD_GET_OK)
+/* PO[C08] active_fd_get.eventfd_failure_reported: eventfd(2) failing (EMFILE, ENFILE, ENOMEM ...) => -1 with its errno, no abort, nothing acquired, nothing leaked, nothing changed */
+__CPROVER_ensures(AFD_GET_FAIL)
+__CPROVER_ensures(AFD_GET_FRAME)
+/* PO[C15] active_fd_get.lock_once: the lock is taken exactly once and released on every path */
+__CPROVER_ensures(AFD_LOCK_DISCIPLINE)
+/* ---- the list */
+/* PO[C08] active_fd_get.shares_before_creating: a node with room (fewer than MAX_USERS_PER_FD users) is shared -- the first such; only if there is none a descriptor is created */
+__CPROVER_ensures(AFD_TAKES0 ==> (__CPROVER_return_value == xv_g_f0 && AH == __CPROVER_old(active_fds.lh_first) && AH->cnt == xv_g_c0 + 1 && (xv_g_n == 2 ==> AN1->cnt == xv_g_c1) && \
+                                  xv_eventfd_calls == __CPROVER_old(xv_eventfd_calls)))
+__CPROVER_ensures(AFD_TAKES1 ==> (__CPROVER_return_value == xv_g_f1 && AH == __CPROVER_old(active_fds.lh_first) && AH->cnt == xv_g_c0 && AN1->cnt == xv_g_c1 + 1 && \
+                                  xv_eventfd_calls == __CPROVER_old(xv_eventfd_calls)))
+/* PO[C08,C04] active_fd_get.created_node: a new node at the head: 1 user, the new descriptor, made with a NON-ZERO counter (readable for ever: nothing reads it) and non-blocking; old nodes as they were, linked behind */
+__CPROVER_ensures((AFD_CREATES && __CPROVER_return_value >= 0) ==> (__CPROVER_is_fresh(AH, AFD_NSZ) && AH->cnt == 1 && AH->fd == __CPROVER_return_value && \
+        AH->elem.le_prev == &active_fds.lh_first && AH->elem.le_next == __CPROVER_old(active_fds.lh_first) && xv_eventfd_init == 1 && xv_eventfd_flags == EFD_NONBLOCK && \
+        (xv_g_n >= 1 ==> (AN1->cnt == xv_g_c0 && AN1->fd == xv_g_f0 && AN1->elem.le_prev == &AH->elem.le_next)) && \
+        (xv_g_n == 2 ==> (AN1->elem.le_next->cnt == xv_g_c1 && AN1->elem.le_next->fd == xv_g_f1))))
+__CPROVER_ensures((AFD_CREATES && __CPROVER_return_value == -1) ==> (AH == __CPROVER_old(active_fds.lh_first) && (xv_g_n >= 1 ==> AH->cnt == xv_g_c0) && (xv_g_n == 2 ==> AN1->cnt == xv_g_c1)))
+__CPROVER_ensures(AFD_CREATES ==> xv_eventfd_calls == __CPROVER_old(xv_eventfd_calls) + 1)
+/* PO[C08] active_fd_get.cnt_invariant: every node still has 1..MAX_USERS_PER_FD users */
+__CPROVER_ensures(AH != NULL ==> (AH->cnt >= 1 && AH->cnt <= MAX_USERS_PER_FD && (AH->elem.le_next != NULL ==> (AH->elem.le_next->cnt >= 1 && AH->elem.le_next->cnt <= MAX_USERS_PER_FD))))
+/* PO[C15] active_fd_get.writes_only_under_lock: the shared list is as on entry when the lock is taken, and is not written after the lock is released */
+__CPROVER_ensures(AFD_NO_WRITE_BEFORE_LOCK && AFD_NO_WRITE_AFTER_UNLOCK)
+;
+
+/* put: fd is the descriptor of one of the nodes (follows from AFD_PUT_REQ and the invariant) */
+#define AFD_PUT0(fd) (xv_g_n >= 1 && xv_g_f0 == (fd))
+#define AFD_PUT1(fd) (xv_g_n == 2 && xv_g_f1 == (fd))
+void active_fd_put(int fd)
+__CPROVER_requires(AFD_SHAPE)
+__CPROVER_requires(AFD_PUT_REQ(fd) && AFD_INV_IN && xv_open_cnt >= 1)
+__CPROVER_assigns(AFD_ASSIGNS, AFD_SNAP_ASSIGNS, active_fds.lh_first)
+__CPROVER_assigns(xv_g_n >= 1: AH->cnt, AH->elem.le_next, AH->elem.le_prev)
+__CPROVER_assigns(xv_g_n == 2: AN1->cnt, AN1->elem.le_prev)
+__CPROVER_frees(xv_g_n >= 1: AH)
+__CPROVER_frees(xv_g_n == 2: AN1)
+/* ---- the contract xpoll.c relies on */
+/* PO[C08] active_fd_put.one_reference_less: one reference less; the descriptor is closed (exactly it, exactly once) or nothing is; errno survives */
+__CPROVER_ensures(AFD_PUT_POST(fd))
+/* PO[C15] active_fd_put.lock_once */
+__CPROVER_ensures(AFD_LOCK_DISCIPLINE)
+/* ---- the list */
+/* PO[C08] active_fd_put.last_user_closes: the node loses one user; with the last one it leaves the list, its descriptor is closed and the node freed; otherwise nothing is closed */
+__CPROVER_ensures((AFD_PUT0(fd) && xv_g_c0 > 1) ==> (AFD_PUT_KEPT && AH == __CPROVER_old(active_fds.lh_first) && AH->cnt == xv_g_c0 - 1 && (xv_g_n == 2 ==> AN1->cnt == xv_g_c1)))
+__CPROVER_ensures((AFD_PUT1(fd) && xv_g_c1 > 1) ==> (AFD_PUT_KEPT && AH == __CPROVER_old(active_fds.lh_first) && AH->cnt == xv_g_c0 && AN1->cnt == xv_g_c1 - 1))
+__CPROVER_ensures((AFD_PUT0(fd) && xv_g_c0 == 1) ==> (AFD_PUT_CLOSED(fd) && __CPROVER_was_freed(__CPROVER_old(active_fds.lh_first)) && \
+        (xv_g_n == 1 ? AH == NULL : (AH == __CPROVER_old(active_fds.lh_first->elem.le_next) && AH->elem.le_prev == &active_fds.lh_first && AH->elem.le_next == NULL && AH->cnt == xv_g_c1 && AH->fd == xv_g_f1))))
+__CPROVER_ensures((AFD_PUT1(fd) && xv_g_c1 == 1) ==> (AFD_PUT_CLOSED(fd) && __CPROVER_was_freed(__CPROVER_old(active_fds.lh_first->elem.le_next)) && \
+        AH == __CPROVER_old(active_fds.lh_first) && AH->elem.le_next == NULL && AH->cnt == xv_g_c0 && AH->fd == xv_g_f0))
+/* PO[C15] active_fd_put.writes_only_under_lock */
+__CPROVER_ensures(AFD_NO_WRITE_BEFORE_LOCK && AFD_NO_WRITE_AFTER_UNLOCK)
+;
+#endif /* XP_AFD */
 
 #include "contracts/end.h"
 #endif
